@@ -41,9 +41,9 @@ Definition hex4 (a b c d : N) : option N :=
 (* char::from_u32 on a 16-bit value *)
 Definition is_bmp_char (u : N) : bool := negb ((55296 <=? u) && (u <=? 57343)).
 
-(* char_from_surrogate_pair as written in tape.rs:
-     n = ((high - 0xD800) << 10) | ((low - 0xDC00) + 0x1_0000)                                   *)
-Definition sp_combine (high low : N) : N := N.lor (N.shiftl (high - 55296) 10) ((low - 56320) + 65536).
+(* char_from_surrogate_pair as written in tape.rs (after the repair c21c3ff, which replaced `|` by `+`):
+     n = ((high - 0xD800) << 10) + ((low - 0xDC00) + 0x1_0000)                                   *)
+Definition sp_combine (high low : N) : N := N.shiftl (high - 55296) 10 + ((low - 56320) + 65536).
 (* RFC 8259 section 7 / UTF-16: the code point of a surrogate pair *)
 Definition sp_spec (high low : N) : N := 65536 + (high - 55296) * 1024 + (low - 56320).
 
